@@ -211,7 +211,19 @@ def oracle_duty(env, reqs, writes, level, hung, errs, overlap, via):
     # the inductive form: from the given bucket level at time 0, what has been written by w_j
     for j in range(len(ws)):
         bits = sum(b for _, b in ws[: j + 1])
-        env.check(bits <= level + RATE * ws[j][0] + pending + EPS, "C11:bits-within-level-plus-refill", info=f"..{j}")
+        pend_j = pending
+        if overlap and via == "fresh":
+            # exact accounting of the regulator: a caller that found the bucket short sleeps for what was missing *at
+            # its test*; what other callers write during that sleep is over-committed (the statement's 'one frame per
+            # write already pending') and stays in the bucket as a debt.  So after write j the excess over level +
+            # refill is at most the bits the *other* callers wrote between the call of j's writer and w_j; a caller
+            # that arrives after the others are done finds their over-shoot still to be repaid.
+            me = next(r for r in reqs if r["frame"] == writes[j][1])
+            pend_j = 0
+            for q in range(j):
+                if me.get("called") is None or ws[q][0] >= me["called"]:
+                    pend_j = pend_j + ws[q][1]
+        env.check(bits <= level + RATE * ws[j][0] + pend_j + EPS, "C11:bits-within-level-plus-refill", info=f"..{j}")
     if via != "fresh":
         for i in range(len(ws)):
             for j in range(i + 1, len(ws)):
